@@ -259,7 +259,7 @@ from . import cli09  # noqa: E402
 
 PROPS["C09"] = {
     "streams": [{"kind": "cli09", "profile": "cli"}],
-    "runs": {"quick": 48, "thorough": 1500},
+    "runs": {"quick": 64, "thorough": 2000},
     "rule": "a generated world (EDF/FIFO/LSF/ILP/TetriSched-Gurobi/TetriSched-CPLEX/Clockwork with a fixed "
             "scheduler runtime; deadline variance, Poisson/Gamma arrivals, conditionals, runtime variance, >=2 resource "
             "types) is written as YAML/JSON + flagfile and the real `python main.py` runs in three fresh interpreters "
@@ -424,3 +424,9 @@ for _p, _ss in (("C01", [CH_DYN]), ("C02", [G_DYN, CH_DYN]), ("C03", [CH_DYN]), 
 PLAN_DYN = {"profile": "plan", "opts": dict(world.PLAN_OPTS, p_batch_loader=1.0)}
 for _p in ("C05", "C10", "C18"):
     PROPS[_p]["streams"] = PROPS[_p]["streams"] + [PLAN_DYN]
+
+# ------------------------------------------------------------------ empty-branch conditionals outside C07
+# (greedy, no zero-length tasks: see the note at G_COND_EMPTY; the completion-release oracle of C18 must see the
+# join released by the tail of the taken branch although the conditional itself is a completed parent)
+for _p in ("C02", "C06", "C18"):
+    PROPS[_p]["streams"] = PROPS[_p]["streams"] + [G_COND_EMPTY]
